@@ -33,7 +33,32 @@ def generate(tier, seed):
     n = 250 if tier == "quick" else 15000
     for i in range(n):
         cases.append({"kind": "cutout", "seed": "%d:c:%d" % (seed, i), "cost": 25})
+    # buried special pairs (the configured exception values): whole proteins in which a SER/THR next to a
+    # HIS ring nitrogen or a CYS sulfur is written as CYS (OG -> SG)
+    for i in range(8 if tier == "quick" else 48):
+        cases.append({"kind": "exception-mutant", "index": i, "seed": "%d:x:%d" % (seed, i), "cost": 200})
     return cases
+
+
+_XCAND = None
+
+
+def exception_candidates():
+    """(file, chain, number, icode) of SER/THR residues whose hydroxyl oxygen is within 4 A of a HIS
+    ring nitrogen or a CYS SG in the repository proteins."""
+    global _XCAND
+    if _XCAND is None:
+        import math
+        from .. import sources
+        _XCAND = []
+        for name in sources.PROTEINS:
+            at = [r for r in sources.full_protein(name) if r.raw is None]
+            og = [r for r in at if r.resn in ("SER", "THR") and r.aname() in ("OG", "OG1")]
+            tg = [r for r in at if (r.resn == "HIS" and r.aname() in ("ND1", "NE2")) or (r.resn == "CYS" and r.aname() == "SG")]
+            for o in og:
+                if any(math.dist((o.x, o.y, o.z), (h.x, h.y, h.z)) < 4000 for h in tg):
+                    _XCAND.append((name, o.chain, o.resnum, o.icode))
+    return _XCAND
 
 
 def setup(tier):
@@ -59,6 +84,26 @@ def run_case(case, tier):
     if case["kind"] == "file":
         recs = sources.full_protein(case["file"])
         desc["file"] = case["file"]
+    elif case["kind"] == "exception-mutant":
+        cands = exception_candidates()
+        name, ch, num, ic = cands[case["index"] % len(cands)]
+        recs = []
+        for r in sources.full_protein(name):
+            if r.raw is None and (r.chain, r.resnum, r.icode) == (ch, num, ic):
+                if r.aname() == "CG2":
+                    continue                    # THR -> CYS: the methyl group goes
+                r = r.copy()
+                r.resn = "CYS"
+                if r.aname() in ("OG", "OG1"):
+                    r.name = " SG "
+                    if len(r.tail) >= 24:                       # element columns 77-78
+                        r.tail = r.tail[:22] + " S" + r.tail[24:]
+            recs.append(r)
+        if case["index"] >= len(cands):
+            # the same site in the chain on its own (fewer neighbours: the buried test may flip)
+            recs = [r for r in recs if r.raw is not None or r.chain == ch]
+        desc.update({"file": name, "mutated": "%s %d" % (ch, num)})
+        classes.append("exception-mutant")
     else:
         if rng.random() < 0.75:
             recs = cluster_cutout(rng)
